@@ -19,6 +19,7 @@ pub const DEAD: u64 = 0xDEAD_DEAD_DEAD_DEAD;
 pub const KEY_SLOT: u32 = 0 << 24;
 pub const KEY_PIN: u32 = 1 << 24;
 pub const KEY_CAP: u32 = 2 << 24;
+pub const KEY_BULK: u32 = 3 << 24; // traced positions of the node's bulk vector (thousands of pointers to one object)
 
 /// One owning pointer position. Dropping is reported (begin / end) so that the mirror knows exactly
 /// which `Cc`s exist at every instant; tracing and finalization forwarding are counted per position.
@@ -402,6 +403,7 @@ pub struct Pins(pub RefCell<Vec<Edge>>);
 pub struct Node {
     pub head: Head,
     pub store: RefCell<Store>,
+    pub bulk: RefCell<Vec<Edge>>,
     pub weaks: RefCell<Vec<AnyWeak>>,
     pub self_weak: RefCell<Option<AnyWeak>>,
     pub cleaner: Cleaner,
@@ -423,6 +425,7 @@ impl Node {
             Node {
                 head: Head { id, canary: Cell::new(MAGIC ^ id as u64) },
                 store: RefCell::new(store),
+                bulk: RefCell::new(Vec::new()),
                 weaks: RefCell::new(Vec::new()),
                 self_weak: RefCell::new(None),
                 cleaner: Cleaner::new(),
@@ -536,6 +539,21 @@ unsafe impl Trace for KeyF {
 impl Finalize for KeyF {
     fn finalize(&self) {
         W::cb_leaf_finalize(self as *const _ as usize, &[]);
+    }
+}
+
+/// A list node whose Debug output nests through `Cc` (C20: Debug on Cc<T> is Debug on T, at any depth).
+#[derive(Debug, Trace, Finalize)]
+pub struct Nest {
+    pub key: u32,
+    pub next: Option<Cc<Nest>>,
+}
+pub mod plain {
+    /// Same shape and same type name, nesting through `Box` (whose Debug is transparent).
+    #[derive(Debug)]
+    pub struct Nest {
+        pub key: u32,
+        pub next: Option<Box<Nest>>,
     }
 }
 
